@@ -205,6 +205,43 @@ def r7b_line_views_agree(ctx, sym):
                   "IndexError escapes verify()")
 
 
+def r8_text_kept(ctx, sym):
+    ctx.rule('R8', "Submission.__init__ and Submission.replace_main executed abstractly for Python files with texts that "
+                   "start with a byte order mark, end in blanks, use CR LF, tabs, form feeds or a NUL: the main code "
+                   "verify() will parse is the text submitted, character for character (CPython rejects a BOM inside a "
+                   "str; a submission stripped of it would be accepted)")
+    from .. import symexec
+    smod = ctx.repo.module('pedal.core.submission')
+    init = smod.func('Submission.__init__')
+    rep = smod.func('Submission.replace_main')
+    ctx.analysed_function(smod, init)
+    ctx.analysed_function(smod, rep)
+    texts = ['\ufeffx = 1\n', 'x = 1  \n\n', ' \tx = (\r\n', 'a\x0cb\n', 'x\x00', '', '\n\n', '\ufeff',
+             'x = "\u00a0"\u3000\n']
+    for text in texts:
+        for how in ('main_code=', 'files=', 'replace_main'):
+            me = symexec.self_obj(smod, 'Submission')
+            fd = symexec.new_fd(sym, smod)
+            if how == 'main_code=':
+                kwargs = {'main_code': text, 'main_file': 'answer.py'}
+            elif how == 'files=':
+                kwargs = {'files': {'answer.py': text, 'other.py': 'y = 2'}, 'main_file': 'answer.py'}
+            else:
+                kwargs = {'main_code': 'old = 0', 'main_file': 'answer.py'}
+            _, raised = symexec.run(fd, init, [], kwargs, bound_self=me, what='Submission.__init__')
+            if raised is None and how == 'replace_main':
+                _, raised = symexec.run(fd, rep, [text], bound_self=me, what='Submission.replace_main')
+            files = me.attrs.get('files')
+            stored = files.get(me.attrs.get('main_file')) if isinstance(files, dict) else None
+            main = me.attrs.get('main_code', stored)
+            ok = raised is None and stored == text and (main == text or how == 'files=')
+            ctx.check(ok, 'R8', 'Submission[%s%r]:text-kept' % (how, text), smod, init if how != 'replace_main' else rep,
+                      "a submission built with %s %r holds %r as its main file%s" % (
+                          how, text, stored, '' if raised is None else ' (raises %s)' % raised.kind),
+                      "contextualize_report('\\ufeffx = 1'); verify(): CPython rejects the text (invalid non-printable "
+                      "character U+FEFF), pedal attaches nothing")
+
+
 def r7_line_indexing(ctx, sym):
     ctx.rule('R7', "no unguarded indexing of a list of source lines by the line CPython reports (CPython counts lone "
                    "CR and form feed differently from str.split('\\n')): a subscript by `line` in syntax_error.__init__ "
@@ -231,6 +268,9 @@ def r7_line_indexing(ctx, sym):
                       "verify() on 'a = 1\\rb = (\\r' (lone CR line endings): CPython reports line 3, the text has one "
                       "LF-separated line, IndexError leaves verify()")
     ctx.ok('R7', 'line-indexing-sweep', sample={'subscripts_by_line': n}, nontrivial=False)
+    # the traceback built for the syntax error looks the line's text up as well (shared with C17.R2)
+    from .c17 import fix_frame_line_bounds_rule
+    fix_frame_line_bounds_rule(ctx, sym, 'R7')
 
 
 def r6_r2_line(ctx, sym):
@@ -383,6 +423,7 @@ def run(ctx):
     r3_iff(ctx, sym, mod, fn, g, site)
     r6_r2_line(ctx, sym)
     r7_line_indexing(ctx, sym)
+    r8_text_kept(ctx, sym)
     r7b_line_views_agree(ctx, sym)
     ctx.assume("ast.parse(str) fails only with SyntaxError, ValueError, RecursionError or MemoryError (CPython docs "
                "and observed on 3.12); agreement of the reported line with CPython's for every corrupted text beyond "
